@@ -16,6 +16,9 @@ REQUIRED_THEOREMS = ["Gv.Props.C14." + n for n in [
     "countDifferences_counts_eq_spec", "numGapsUnique_eq_spec", "numMutationsUnique_eq_spec",
     "equalOrCompatible_is_shared_base", "nt2IndexIUPAC_defined_iff", "numMutationsVsRef_eq_spec",
     "listMutationsVsRef_eq_spec", "wildcard_or_compatible_is_no_substitution", "entropy_eq_spec",
+    # the codon-wise list (--aa): error exactly as the code, every entry justified by a reference codon / gap triple
+    "standard_code_defined", "listMutationsVsRefAA_error_iff", "listMutationsVsRefAA_defined_iff_spec",
+    "listMutationsVsRefAA_entries_justified", "aaEntry_reports_a_difference",
     # MaxCharStats / Consensus on the actual count entries of a column (first-appearance order = some map order)
     "countUpper_eq_tally", "countUpper_keys_nodup", "countUpper_lookup", "countUpper_pos",
     "maxCharSite_order_independent", "maxCharSite_is_argmax",
@@ -49,7 +52,12 @@ TECHNIQUE = "Lean 4 proof (order-independence for all permutations, list inducti
 RULE = ("alignments of 1..6 rows x 1..6 columns over small alphabets with ties for the most frequent character, all-gap and all-N "
         "columns, mixed case, specials; all site indices in [-1, L]; both ignore options; every map-ordered call repeated 200 "
         "times; non-trivial = a column with a tie or a boundary index")
-PARTIAL = ["Entropy: the occurrence counts, the summation order and the error/NaN cases are proved (entropy_eq_spec); the float sum itself "
+PARTIAL = ["codon-wise mutation list (--aa): proved are the error condition (= the code's, = the definition's) and that every "
+           "listed entry is justified (window of a reference codon or of three reference gaps, position = reference residues to the "
+           "left / 3, reference amino acid = translation of the codon, alternative = translation of the query residues, not the "
+           "reference amino acid alone); that every differing codon IS listed (model = Spec.aaMutations) is not proved: it is "
+           "checked on every generated pair by the oracle, which evaluates Spec.aaMutations against the implementation's answer",
+           "Entropy: the occurrence counts, the summation order and the error/NaN cases are proved (entropy_eq_spec); the float sum itself "
            "(math.Log) is compared with tolerance 1e-12, rounding is not modelled; AvgAllelesPerSite: the two integer counters are "
            "proved, the float64 quotient is compared with tolerance",
            "Pssm: theorems are over the reals (Props/C14Pssm.lean); float rounding and the last place of math.Log are not modelled: "
